@@ -114,6 +114,7 @@ class ParSession(base.Session):
             self.dcalls[did].append((vec, code, exc))
             self.calls.append((individual, vec, code, exc))
             self.local.did = did
+            self.local.session = self
         if exc is not None:
             raise exc
         return list(self.F(vec))
@@ -128,6 +129,8 @@ class ParSession(base.Session):
 
         def gen_vector(cls, design_parameters):
             v = real(cls, design_parameters)
+            if getattr(session.local, "session", None) is not session:
+                return v                       # a thread that is not working for this session
             with session.lock:
                 session.drolls.setdefault(getattr(session.local, "did", -1), []).append([float(x) for x in v])
                 session.tape.append([float(x) for x in v])
@@ -155,12 +158,18 @@ class ParSession(base.Session):
                 with self.lock:
                     self.active -= 1
         job.evaluate = evaluate
+        exc = None
         try:
-            _, exc = self.run_guarded(lambda: self.alg.evaluate(batch))
-            t0 = time.time()
-            while self.active > 0 and time.time() - t0 < 5:
-                time.sleep(0.005)
-            time.sleep(0.01)
+            with self.patched():
+                try:
+                    self.alg.evaluate(batch)
+                except BaseException as e:      # noqa: the caller's view of what propagates
+                    exc = e
+                # worker threads may still be inside a job when the exception reaches the caller: let them finish
+                t0, quiet = time.time(), 0
+                while quiet < 4 and time.time() - t0 < 5:
+                    time.sleep(0.005)
+                    quiet = quiet + 1 if self.active == 0 else 0
         finally:
             del job.evaluate
         return before, exc
@@ -323,14 +332,14 @@ def run(ctx):
                     note([a, b, c])
                     add(serial_case(lab, rng, [a, b, c], again=rng.random() < 0.5), ("triple_all", a, b, c))
     # random histories (evaluate / scalar / sweep, presets, aliasing) under heavy fault rates
-    for k in range(ctx.pick(350, 8000)):
+    for k in range(ctx.pick(600, 8000)):
         s, kinds = base.random_history(lab, rng, fault_rate=rng.choice([0.2, 0.35, 0.5, 0.7]), fatal_rate=rng.choice([0.0, 0.03, 0.1]))
         base.collect(ctx, s, "C06", cases, expected, meta, hist)
         ctx.count(("hist", tuple(c[2] for c in s.calls), tuple(s.id_of(c[0]) for c in s.calls), tuple(o.split()[0] for o in s.ops)),
                   nontrivial=any(c[2] != "ok" for c in s.calls))
     # 2-worker parallel runs: the exception has to surface through joblib
     par = []
-    for k in range(ctx.pick(40, 600)):
+    for k in range(ctx.pick(60, 600)):
         parallel_case(lab, rng, ctx, par, hist)
     for c, e, m in par:
         cases.append(c)
